@@ -495,8 +495,18 @@ class RefParser:
         name = self.toks[self.i].t
         self.i += 1
         if b'|' in name or b'=' in name:
-            # a quoted name that looks like a path: resolved by the path machinery; not part of C01
-            raise _Stop(UNSPEC, name_i, 'name looks like a path')
+            # a quoted name that looks like a path is resolved by the path machinery.  What an assignment through a path means is
+            # not part of C01; but a path that does not resolve names nothing: it is an unknown name like any other
+            import refpath
+            r = refpath.resolve(sec, name, 'opt')
+            if r != refpath.NOTFOUND or sec.keystrval:
+                raise _Stop(UNSPEC, name_i, 'name looks like a path')
+            if self.ignore_unknown:
+                self.skip_unknown(depth)
+                self.unknown_items += 1
+                self.items.append((start, self.i, depth, 'unknown'))
+                return
+            raise _Stop(REJECT, name_i, 'no such option')
         o = sec.find(name) if name else None       # the empty name ("" = 1) names nothing
         if o is None:
             if not name and sec.keystrval and not self.ignore_unknown:
@@ -665,8 +675,10 @@ class RefParser:
         if t.k != '{':
             raise _Stop(REJECT, self.i, 'missing opening brace')
         brace_i = self.i
-        if d.has('T') and not d.has('M'):
-            raise _Stop(UNSPEC, name_i, 'title on a single section')
+        if d.has('T') and not d.has('M') and o.values:
+            # a single section with a title: the instance takes the title it is created with; what a title means when the
+            # instance exists already (created by cfg_init, or re-opened) is not described
+            raise _Stop(UNSPEC, name_i, 'title on an existing single section')
         if sec.keystrval and not d.has('K'):
             raise _Stop(UNSPEC, name_i, 'section nested in a free-form section')
         if title is not None and b'\0' in title:
@@ -676,7 +688,7 @@ class RefParser:
         if not d.has('M'):
             if not o.values:
                 # a single section declared NODEFAULT does not exist until the text mentions it
-                o.values.append(SecState(d.sub, sec.nocase, sec.keystrval or d.has('K'), None))
+                o.values.append(SecState(d.sub, sec.nocase, sec.keystrval or d.has('K'), title))
             inst = o.values[0]
         else:
             inst = SecState(d.sub, sec.nocase, sec.keystrval or d.has('K'), title)
